@@ -75,7 +75,7 @@ def jumpi_cases():
                         ctx.oblige("not-proved-infeasible => fall-through kept or logged", z3.BoolVal(has_f or logged), info={"raised": raised})
                     ctx.oblige("both-queries-asked-once", z3.BoolVal(sorted(o.asked) == ["false", "true"]))
 
-                out.append(Case(f"{PROP}/sevm.SEVM.jumpi", f"check(c)={ct},check(not c)={cf},{entry}", harness, sources=JU.SOURCES))
+                out.append(Case(f"{PROP}/sevm.SEVM.jumpi", f"check(c)={ct},check(not c)={cf},{entry}", harness, replay=JU.replay_jumpi, sources=JU.SOURCES))
     return out
 
 
